@@ -1,6 +1,6 @@
 #!/bin/bash
 # Runs every seeded change under /verif/seeded/<PROP>-<k>/patch.diff against the check of its
-# property and prints caught / MISSED. Works on a scratch worktree of /repo's HEAD (created
+# property and prints caught / MISSED (for a retired seed, seeded/<id>/RETIRED: quiet / FALSE-ALARM). Works on a scratch worktree of /repo's HEAD (created
 # under /var/tmp and removed at the end), so /repo itself is not touched.
 #   usage: run_seeds.sh [PROP ...]
 cd /verif
@@ -13,6 +13,11 @@ for d in seeded/*/; do
   id=$(basename "$d"); prop=${id%%-*}
   if [ -n "$want" ] && ! echo " $want " | grep -q " $prop "; then continue; fi
   out=$(./selftest/mut.sh "/verif/${d}patch.diff" "$prop" 2>&1)
+  if [ -f "${d}RETIRED" ]; then
+    # a change that no longer breaks the property on the current tree: the check must stay quiet
+    if echo "$out" | grep -q "^VIOLATION\|TOOL-ERROR\|mut.sh:"; then echo "FALSE-ALARM $id  $(echo "$out" | grep "^VIOLATION\|TOOL-ERROR\|mut.sh:" | head -1 | cut -c1-160)"; else echo "quiet   $id  (retired: behaviour-preserving on the current tree)"; fi
+    continue
+  fi
   if echo "$out" | grep -q "^VIOLATION property=$prop"; then
     ob=$(echo "$out" | grep "^VIOLATION property=$prop" | sed 's/.*obligation=\([^ ]*\).*/\1/' | sort -u | head -3 | tr '\n' ' ')
     echo "caught  $id  by $ob"
